@@ -128,6 +128,9 @@ func (p *Prog) JS() string {
 		sb.WriteString("return {\"fresh\": true};\n")
 	case "nan":
 		sb.WriteString("bs[\"bad\"] = 0/0;\nreturn bs;\n")
+	case "getter":
+		// the returned object computes a property when it is converted, and that code throws
+		sb.WriteString("return {get boom(){ throw \"json: unsupported:getter\"; }};\n")
 	case "cyclic":
 		// bindings that contain themselves
 		sb.WriteString("var r = {\"count\": 1}; r.me = [r];\nreturn r;\n") // same shape of cycle as the cyclic emission: the texts are equal
@@ -262,7 +265,7 @@ func (g *G) Action(guard bool, mode string) *Prog {
 			}
 		default:
 			f = nil
-			p.Ret = g.PickS("scalar", "array", "null", "nan", "cyclic")
+			p.Ret = g.PickS("scalar", "array", "null", "nan", "cyclic", "getter")
 		}
 		if f != nil {
 			at := g.Intn(len(p.Ops) + 1)
